@@ -910,3 +910,125 @@ pub fn history_json(p: &UProfile, seed: u64, idx: u64, out: &UOut, max_lines: us
         .with("config", out.cfg.as_str())
         .with("log", Json::Arr(lines))
 }
+
+// ------------------------------------------------------------------ C10 table (unmanaged)
+
+/// Complete table for the unmanaged pool's single timeout:
+/// runtime x timeout in {none, zero, finite} x {timeout_get, get with configured timeout}
+/// x object becomes available {immediately, before, at, after the deadline, never}.
+pub fn c10_table(rt: &tokio::runtime::Runtime, keep_log: bool) -> Vec<(String, Vec<String>, Option<Violation>)> {
+    const D: u64 = 100;
+    let mut out = Vec::new();
+    for runtime in [true, false] {
+        for (tn, timeout) in [("none", None), ("zero", Some(Duration::ZERO)), ("finite", Some(Duration::from_millis(D)))] {
+            for via_config in [false, true] {
+                for (an, avail) in [("immediately", Some(0u64)), ("before", Some(D / 2)), ("at_deadline", Some(D)), ("after", Some(D + D / 2)), ("never", None)] {
+                    let sig = format!("rt={};timeout={};via={};avail={}", runtime, tn, if via_config { "config" } else { "timeout_get" }, an);
+                    let w: UW = Arc::new(Mutex::new(UWorld {
+                        prop: "C10",
+                        log: Vec::new(),
+                        keep_log,
+                        log_hash: Default::default(),
+                        locs: Vec::new(),
+                        max_size: 1,
+                        closed: false,
+                        pool_dropped: false,
+                        teardown: false,
+                        op: "build".into(),
+                        violations: Vec::new(),
+                        foreign: 0,
+                        counters: BTreeMap::new(),
+                        events: 0,
+                        was_full: false,
+                        was_empty_with_getter: false,
+                        blocked_seen: false,
+                    }));
+                    lock(&w).ev(format!("unmanaged C10 scenario {}", sig));
+                    let mut class = "pending";
+                    rt.block_on(async {
+                        let mut c = PoolConfig::new(1);
+                        c.timeout = if via_config { timeout } else { None };
+                        c.runtime = if runtime { Some(Runtime::Tokio1) } else { None };
+                        let mut d = UDirector {
+                            w: w.clone(),
+                            pool: Some(Pool::from_config(&c)),
+                            cfg_timeout: c.timeout,
+                            runtime,
+                            tasks: Vec::new(),
+                            held: Vec::new(),
+                            external: Vec::new(),
+                            sched: Default::default(),
+                            states: Default::default(),
+                        };
+                        if avail == Some(0) {
+                            let o = d.new_obj();
+                            d.try_add(o);
+                        }
+                        d.start(if via_config { UKind::Get } else { UKind::TimeoutGet(timeout) }, None);
+                        let mut now = 0u64;
+                        for _ in 0..8 {
+                            if d.tasks[0].fut.is_none() || d.world().stop() {
+                                break;
+                            }
+                            if avail == Some(now) && now > 0 {
+                                let o = d.new_obj();
+                                d.try_add(o);
+                            }
+                            let mut guard = 0;
+                            while !d.ready().is_empty() && guard < 10 {
+                                guard += 1;
+                                let r = d.ready();
+                                d.poll(r[0], format!("poll t{}", r[0]));
+                            }
+                            if d.tasks[0].fut.is_none() {
+                                break;
+                            }
+                            d.begin(format!("advance {}ms", D / 2));
+                            tokio::time::advance(Duration::from_millis(D / 2)).await;
+                            d.after();
+                            now += D / 2;
+                        }
+                        class = if d.tasks[0].fut.is_some() {
+                            "pending"
+                        } else if !d.held.is_empty() {
+                            "ok"
+                        } else {
+                            let w = d.world();
+                            if w.counters.get("gets_timeout").copied().unwrap_or(0) > 0 {
+                                "timeout"
+                            } else if w.counters.get("gets_no_runtime").copied().unwrap_or(0) > 0 {
+                                "no_runtime"
+                            } else {
+                                "other"
+                            }
+                        };
+                        let mut wl = d.world();
+                        wl.teardown = true;
+                        wl.pool_dropped = true;
+                        drop(wl);
+                        drop(d);
+                    });
+                    let exp: Vec<&str> = match (tn, runtime, an) {
+                        ("none", _, "never") => vec!["pending"],
+                        ("none", _, _) => vec!["ok"],
+                        ("zero", _, "immediately") => vec!["ok"],
+                        ("zero", _, _) => vec!["timeout"],
+                        ("finite", false, _) => vec!["no_runtime"],
+                        ("finite", true, "immediately") | ("finite", true, "before") => vec!["ok"],
+                        ("finite", true, "at_deadline") => vec!["ok", "timeout"],
+                        ("finite", true, _) => vec!["timeout"],
+                        _ => vec![],
+                    };
+                    let mut wl = lock(&w);
+                    let mut v = wl.violations.first().cloned();
+                    if v.is_none() && !exp.contains(&class) {
+                        v = Some(Violation { prop: "C10", oracle: "unmanaged_timeout_table", msg: format!("scenario {} ended with {}; the documented behaviour allows {:?}", sig, class, exp) });
+                    }
+                    wl.log.push(format!("result class {} (acceptable {:?})", class, exp));
+                    out.push((sig, std::mem::take(&mut wl.log), v));
+                }
+            }
+        }
+    }
+    out
+}
